@@ -69,6 +69,25 @@ impl Target {
         }
         Ok(Target { child, pid, stdin, reader, facts, fact_list, tids, shared, scen_path })
     }
+    /// the target replaces its program image (execve of itself with a new scenario): same pid, new auxiliary vector,
+    /// new address-space layout, new threads
+    pub fn reexec(&mut self, scen: &Scenario, workdir: &str) -> Result<(), String> {
+        let k = COUNTER.fetch_add(1, std::sync::atomic::Ordering::SeqCst);
+        let scen_path = format!("{workdir}/scenario-{}-{k}.txt", std::process::id());
+        std::fs::write(&scen_path, scen.text()).map_err(|e| e.to_string())?;
+        let line = self.cmd(&format!("e {scen_path}"));
+        if !line.starts_with("READY") { return Err(format!("target did not come back after exec: {line:?}")); }
+        let mut facts = HashMap::new(); let mut fact_list = Vec::new();
+        for tok in line.split_whitespace().skip(1) { if let Some((k, v)) = tok.split_once('=') { facts.insert(k.to_string(), v.to_string()); fact_list.push((k.to_string(), v.to_string())); } }
+        if facts.get("pid").and_then(|p| p.parse::<i32>().ok()) != Some(self.pid) { return Err("exec changed the pid".into()); }
+        let mut tids = Vec::new();
+        for i in 0..scen.threads.len() { tids.push(facts.get(&format!("t{i}.tid")).and_then(|v| v.parse().ok()).ok_or("missing tid")?); }
+        self.shared = std::fs::File::open(&facts["shared"]).map_err(|e| format!("shared page: {e}"))?;
+        let _ = std::fs::remove_file(&self.scen_path);
+        self.facts = facts; self.fact_list = fact_list; self.tids = tids; self.scen_path = scen_path;
+        for _ in 0..400 { let sc = std::fs::read_to_string(format!("/proc/{}/syscall", self.pid)).unwrap_or_default(); if sc.starts_with("0 0x0 ") { break; } std::thread::sleep(std::time::Duration::from_micros(500)); }
+        Ok(())
+    }
     /// wait until the threads that block in a system call are back in it (after a stop they restart the
     /// call; a dump taken before they ran again sees them at the `syscall` instruction instead of after it)
     pub fn settle(&self) {
